@@ -110,6 +110,41 @@ whitespace!(c06_skip_whitespace_2, 2, 5);
 whitespace!(c06_skip_whitespace_3, 3, 6);
 whitespace!(c06_skip_whitespace_4, 4, 7);
 
+/// `skip_shebang` on every UTF-8 string of <= N bytes: no panic; the cursor stays on a character boundary inside
+/// the input; only an input starting with `#!` loses anything, and then exactly its first line (through the first
+/// newline, or everything when there is none).
+macro_rules! shebang {
+    ($name:ident, $n:expr, $unwind:expr) => {
+        #[cfg_attr(kani, kani::proof)]
+        #[cfg_attr(kani, kani::unwind($unwind))]
+        pub fn $name() {
+            let b: Bytes<$n> = Bytes::any();
+            if let Some(s) = b.as_str() {
+                let by = b.bytes();
+                let mut lx = Lexer::new(s);
+                lx.skip_shebang();
+                let rest = lx.verif_rest();
+                assert!(rest.len() <= s.len(), "cursor past the end");
+                let k = s.len() - rest.len();
+                assert!(s.is_char_boundary(k), "cursor inside a character");
+                if k > 0 {
+                    assert!(by.len() >= 2 && by[0] == b'#' && by[1] == b'!', "input without #! lost a prefix");
+                    let mut e = 0;
+                    while e < by.len() && by[e] != b'\n' {
+                        e += 1;
+                    }
+                    let line = if e < by.len() { e + 1 } else { by.len() };
+                    assert!(k == line, "a shebang line ends at its newline (or at the end of the input)");
+                }
+                cover!(k == $n, "whole_input_is_a_shebang_line");
+                cover!(k == 0 && by.len() == $n && by[0] == b'#' && by[1] == b'!', "hash_bang_followed_by_whitespace_is_not_a_shebang");
+            }
+        }
+    };
+}
+shebang!(c06_shebang_3, 3, 6);
+shebang!(c06_shebang_4, 4, 7);
+
 macro_rules! fstring_part {
     ($name:ident, $n:expr, $unwind:expr) => {
         #[cfg_attr(kani, kani::proof)]
@@ -208,6 +243,8 @@ char_range!(c06_char_range_3, 3, 6);
 char_range!(c06_char_range_4, 4, 7);
 
 crate::list![
+    c06_shebang_3,
+    c06_shebang_4,
     c06_char_range_2,
     c06_char_range_3,
     c06_char_range_4,
